@@ -21,7 +21,7 @@ EDIT = ["modify", "modify_if", "unselect", "fill_missing_keys", "left_join", "in
 FRESH = ["rename", "select"]
 
 
-PROBES = ["sort", "sort_desc", "unique", "filter_kv", "filter_out_kv", "drop_na", "semi_join", "anti_join", "pluck", "group_aggregate", "to_string"]
+PROBES = ["sort", "sort_desc", "unique", "filter_kv", "filter_out_kv", "drop_na", "semi_join", "anti_join", "pluck", "group_aggregate", "group_aggregate_a", "group_aggregate_a", "to_string"]
 
 
 def probe(lod, st, other):
@@ -46,6 +46,9 @@ def probe(lod, st, other):
         return lod.pluck(key)
     if m == "group_aggregate":
         return lod.group_by(key).aggregate(n=len)
+    if m == "group_aggregate_a":
+        # a key every item has: the aggregation runs to the end (and must leave the list and its ancestors as they were)
+        return lod.group_by("a").aggregate(n=len, s=lambda g: sum(x.get("a") or 0 for x in g))
     if m == "to_string":
         return lod.to_string()
     raise ValueError(m)
